@@ -108,7 +108,9 @@ func failingStatements(w *world, maxM int) []failStmt {
 			failStmt{SQL: fmt.Sprintf("UPDATE t1 SET c = '%v'", t.Rows[len(t.Rows)/2].Vals[1]), Class: "valid/update-all-to-a-held-value", K: 0, M: len(t.Rows)},
 			failStmt{SQL: fmt.Sprintf("UPDATE t1 SET c = '%v'", t.Rows[len(t.Rows)-1].Vals[1]), Class: "valid/update-all-to-a-held-value", K: 0, M: len(t.Rows)},
 			failStmt{SQL: fmt.Sprintf("UPDATE t1 SET c = '%v', a = %v WHERE a > 0", t.Rows[0].Vals[1], t.Rows[0].Vals[0]), Class: "valid/update-all-to-a-held-value", K: 0, M: len(t.Rows)},
-			failStmt{SQL: fmt.Sprintf("INSERT INTO t1 VALUES (%d, 'v')", next), Class: "valid/insert", K: 0, M: 1})
+			failStmt{SQL: fmt.Sprintf("INSERT INTO t1 VALUES (%d, 'v')", next), Class: "valid/insert", K: 0, M: 1},
+			failStmt{SQL: "CREATE TABLE w9 (a int, c varchar(255))", Class: "valid/create-table", K: 0, M: 0},
+			failStmt{SQL: "CREATE TABLE w8 (a int, b bigint, c varchar(255), d boolean)", Class: "valid/create-table", K: 0, M: 0})
 		out = append(out,
 			failStmt{SQL: "UPDATE t1 SET a = 'x'", Class: "update/type-mismatch", K: 1, M: len(t.Rows)},
 			failStmt{SQL: "UPDATE t1 SET a = 2147483648", Class: "update/int-out-of-range", K: 1, M: len(t.Rows)},
@@ -203,6 +205,28 @@ func c14Seed(w *world, name string) *world {
 			n -= b
 		}
 		return okw(w, ok)
+	case name == "t1x12+refused+t2+restart":
+		// a table whose root has split and that got single rows afterwards (log records that every program start
+		// looks at again), then row ids used up without a log record (a refused INSERT, a CREATE TABLE), then a
+		// clean shutdown and restart: the counters recovery arrives at must cover everything handed out before
+		ok := w.do(mkCreate("t1", worldSchemas["t1"])) && w.do(mkInsert(w.model, "t1", 9, false))
+		for i := 0; ok && i < 3; i++ {
+			ok = w.do(mkInsert(w.model, "t1", 1, false))
+		}
+		if st, has := mkInsertTooLarge(w.model, "t1"); ok && has {
+			ok = w.do(st)
+		}
+		ok = ok && w.do(mkCreate("t2", worldSchemas["t2"]))
+		if !ok {
+			return nil
+		}
+		rs := w.sess.RelationService
+		if err := guard(func() error { return w.sess.Close() }); err != nil {
+			w.failErr("close-failed", "Session.Close", err)
+			return nil
+		}
+		storage.VerifMarkClosed(rs)
+		return okw(w.recoverFrom(w.image(), false), !w.c.Failed())
 	case name == "t1-empty":
 		return okw(w, w.do(mkCreate("t1", worldSchemas["t1"])))
 	}
@@ -211,7 +235,7 @@ func c14Seed(w *world, name string) *world {
 
 func runC14(env *lib.Env, rep *lib.Report) {
 	maxM := 3
-	seeds := []string{"t1-empty", "t1x8", "t1x8-upper-deleted", "interleaved", "t4k1", "t4k2", "t4k3", "t5-null-later", "small:t1x40", "t1x8-maxrow-upper"}
+	seeds := []string{"t1-empty", "t1x8", "t1x8-upper-deleted", "interleaved", "t4k1", "t4k2", "t4k3", "t5-null-later", "small:t1x40", "t1x8-maxrow-upper", "t1x12+refused+t2+restart"}
 	if env.Thorough() {
 		maxM = 4
 		seeds = append(seeds, "t1x30", "t1x8+t2t3-crashed", "t1x12+t2x1")
